@@ -86,6 +86,41 @@ func init() {
 			stale = true
 		}
 		l.def("c14DefaultConfigurationId", "String", strconv.Quote(conf), "pkg/webhook/admission/manager.go DefaultConfigurationId")
+
+		// the name of a run's admission response file: format string and arguments of the fmt.Sprintf in
+		// Hook.prepareAdmissionResponseFile (a per-run uuid keeps overlapping runs of one hook apart)
+		respFmt, respArgs := "", []string{}
+		if fd := findFunc("pkg/hook/hook.go", "Hook", "prepareAdmissionResponseFile"); fd != nil && fd.Body != nil {
+			n := 0
+			ast.Inspect(fd.Body, func(x ast.Node) bool {
+				call, ok := x.(*ast.CallExpr)
+				if !ok {
+					return true
+				}
+				sel, ok := call.Fun.(*ast.SelectorExpr)
+				if !ok || sel.Sel.Name != "Sprintf" || len(call.Args) == 0 {
+					return true
+				}
+				lit, ok := call.Args[0].(*ast.BasicLit)
+				if !ok || lit.Kind != token.STRING {
+					stale = true
+					return true
+				}
+				n++
+				respFmt, _ = strconv.Unquote(lit.Value)
+				for _, a := range call.Args[1:] {
+					respArgs = append(respArgs, srcOf(a))
+				}
+				return true
+			})
+			if n != 1 {
+				stale = true
+			}
+		} else {
+			stale = true
+		}
+		l.def("c14ResponseFileFmt", "String", strconv.Quote(respFmt), "pkg/hook/hook.go prepareAdmissionResponseFile: fmt.Sprintf format")
+		l.def("c14ResponseFileArgs", "List String", leanStrList(respArgs), "pkg/hook/hook.go prepareAdmissionResponseFile: fmt.Sprintf arguments")
 		l.def("c14FactsStale", "Bool", map[bool]string{true: "true", false: "false"}[stale], "extractor: a syntactic shape it expects was not found")
 	})
 }
